@@ -40,6 +40,11 @@ pub fn run_source_after(prior: &(String, bool), src: &str, drive: Drive, rec: bo
         Ok(())
     } else if prior.1 { xs.eval(&prior.0) } else { xs.compile(&prior.0).and_then(|_| xs.run()) });
     let _ = xs.read_stdout();
+    if xs.is_running() {
+        // the earlier source has not come to an end (a stepped loop that hit the step cap): the interpreter is not idle,
+        // which is outside the property - the program is driven from a fresh interpreter instead
+        return run_source(src, drive, rec, insn_limit);
+    }
     xs.set_insn_limit(Some(insn_limit)).unwrap(); // resets the meter
     run_on(xs, src, drive)
 }
